@@ -546,6 +546,7 @@ Definition run (tag : Z) (args : list Z) : list Z :=
   | 52, l => run_sym l
   | 60, l => run_obj_pair l
   | 61, l => run_obj_attrs l
+  | 63, _ => ANY
   | 62, l => run_coll l
   | 70, l => run_parse l
   | 73, l => run_parse l
@@ -595,6 +596,7 @@ Definition spec (tag : Z) (args : list Z) : list Z :=
   | 60, l => spec_obj_pair l
   | 61, l => spec_obj_attrs l
   | 62, l => spec_coll l
+  | 63, _ => [1]
   | 70, l => spec_parse l
   | 73, l => spec_fixpoint l
   | 74, l => spec_options l
@@ -642,8 +644,8 @@ Fixpoint zlist_match' (impl sp : list Z) : bool :=   (* spec may hold wildcards;
 Definition zlist_match (impl sp : list Z) : bool :=
   match sp with
   | [-8] => true
-  | [-11] => match impl with [c] => negb (c =? 0) | _ => false end     (* rejected, whatever the error *)
-  | -12 :: sp' => match impl with [c] => negb (c =? 0) | _ => zlist_match' impl sp' end
+  | [-11] => match impl with [c] => negb (c =? 0) && negb (c =? -777) | _ => false end     (* rejected, whatever the error; -777 = the implementation panicked *)
+  | -12 :: sp' => match impl with [c] => negb (c =? 0) && negb (c =? -777) | _ => zlist_match' impl sp' end
   | _ => zlist_match' impl sp
   end.
 
